@@ -20,7 +20,7 @@ EXPLAIN = "c02_explain"
 CASES_PER_FILE = 120
 CASE_FILE_BYTES = 150000
 CASE_TIMEOUT = 20
-TIERS = {"quick": {"n": 1800}, "thorough": {"n": 40000}}
+TIERS = {"quick": {"n": 1800}, "thorough": {"n": 8000, "exhaustive": True}}   # + 21 952 swept cases
 RULE = ("[2 % of the cases are Spec validation: same lookups driven through functools.lru_cache(max_size)(on_miss), observations taken from it, so that Spec and model are compared with an independent standard-library LRU] histories of 1-50 (thorough: up to 120) public dict-API calls (item get/set/del, get, setdefault, update "
         "with dict/mapping/pairs/generator + kwargs, |=, pop, popitem, clear, copy, in, len, iteration, items, "
         "==/!= against dicts, caches and non-mappings, update(self, **kw), update(other cache)) on an LRI or LRU with max_size 1-4 (sometimes 5-8, thorough also 128), 3-7 "
@@ -208,6 +208,7 @@ def gen_case(rng, tier):
                 continue
             recent[ncaches] = list(rec)
             ncaches += 1
+            op.update(how=rng.randrange(2))        # c.copy() / copy.copy(c)
             ops.append(op)
             ops.append({"op": "len", "i": i})      # the source right after copy(): counters/contents unchanged
             continue
@@ -238,7 +239,31 @@ def gen_case(rng, tier):
             "init_kind": init_kind, "full": full, "ops": ops}
 
 
+def exhaustive_small(depth=3):
+    """Every history of `depth` calls drawn from 14 call shapes over two keys, for both classes, max_size 1 and 2,
+    with and without on_miss, followed by the eviction probe: a complete sweep of the smallest scope."""
+    import itertools
+    shapes = []
+    for k in (0, 5):
+        shapes += [{"op": "set", "i": 0, "k": k, "v": 1 + (k == 5)}, {"op": "getitem", "i": 0, "k": k},
+                   {"op": "get", "i": 0, "k": k, "d": 3, "style": "pos"},
+                   {"op": "setdefault", "i": 0, "k": k, "d": 4, "style": "pos"},
+                   {"op": "del", "i": 0, "k": k}, {"op": "pop", "i": 0, "k": k, "d": 5}]
+    shapes += [{"op": "popitem", "i": 0}, {"op": "clear", "i": 0}]
+    for cls in ("LRI", "LRU"):
+        for mx in (1, 2):
+            for om in (None, {"table": [[0, 6]], "default": 7}):
+                for combo in itertools.product(range(len(shapes)), repeat=depth):
+                    ops = [dict(shapes[j]) for j in combo]
+                    ops += [{"op": "set", "i": 0, "k": FRESH0 + t, "v": 1} for t in range(mx)]
+                    yield {"cls": cls, "max": mx, "on_miss": om, "init": [], "init_kind": "none", "full": "all",
+                           "ops": ops, "sweep": depth}
+
+
 def generate(rng, tier, n):
+    if tier == "thorough" and TIERS[tier].get("exhaustive"):
+        for c in exhaustive_small(3):
+            yield c
     for _ in range(n):
         yield gen_case(rng, tier)
 
@@ -428,7 +453,7 @@ def run_impl(case):
                 assert r is True or r is False
                 out = ["bool", r]
             elif name == "copy":
-                new = c.copy()
+                new = c.copy() if op.get("how", 0) == 0 else _copy.copy(c)
                 assert type(new) is type(c) and new is not c and new.max_size == c.max_size
                 caches.append(new)
                 c = new
@@ -621,6 +646,8 @@ def distribution(d, case, obs):
         d[group][str(k)] = d[group].get(str(k), 0) + by
     if case.get("ref"):
         inc("spec_validation", case["ref"])
+    if case.get("sweep"):
+        inc("exhaustive_sweep", "depth %d, 14 call shapes, 2 keys, both classes, max_size 1-2, on_miss None/f" % case["sweep"])
     if not case["ops"] and (case["max"] <= 0 or case.get("on_miss_bad")):
         inc("constructor", obs[0]["ctor"] if obs and "ctor" in obs[0] else "constructed")
     inc("class", case["cls"])
